@@ -15,24 +15,41 @@ import subprocess
 
 ROOT = os.path.dirname(os.path.dirname(os.path.abspath(__file__)))
 SEEDED = os.path.join(ROOT, "seeded")
-conf = {}
-for f in glob.glob(os.path.join(ROOT, ".build", "confirm", "*.result")):
-    line = open(f).read().strip()
-    conf[line.split()[0]] = line
-det = {}
-mr = os.path.join(ROOT, ".build", "mutant_results.txt")
-if os.path.exists(mr):
-    cur = None
-    for line in open(mr):
-        m = re.match(r"MUTANT (\S+)/change_(\d+)\.diff on (C\d+)( \w+)?: (.*)", line)
-        if m:
-            cur = (m.group(1), m.group(2))
-            det[cur] = {"check": m.group(3), "result": m.group(5).strip(), "signatures": []}
-        elif cur and line.startswith("  ["):
-            det[cur]["signatures"].append(line.strip()[:260])
+def load_conf(d):
+    conf = {}
+    for f in glob.glob(os.path.join(ROOT, ".build", d, "*.result")):
+        line = open(f).read().strip()
+        conf[line.split()[0]] = line
+    return conf
+
+
+def load_det(fname):
+    det = {}
+    mr = os.path.join(ROOT, ".build", fname)
+    if os.path.exists(mr):
+        cur = None
+        for line in open(mr):
+            m = re.match(r"MUTANT (\S+)/change_(\d+)\.diff on (C\d+)( \w+)?: (.*)", line)
+            if m:
+                cur = (m.group(1), m.group(2))
+                det[cur] = {"check": m.group(3), "result": m.group(5).strip(), "signatures": []}
+            elif cur and line.startswith("  ["):
+                det[cur]["signatures"].append(line.strip()[:260])
+    return det
+
+
 rows = []
-for src, own in ((os.path.join(SEEDED, "_incoming"), False), (os.path.join(SEEDED, "_own"), True)):
-    for d in sorted(glob.glob(os.path.join(src, "*"))):
+SOURCES = [
+    # directory, author, confirm results, detection results, kept-directory name
+    ("_incoming", "agent (wave 1)", "confirm", "mutant_results.txt", "{name}-{n}"),
+    ("_own", "own", "confirm", "mutant_results.txt", "{name}-{n}"),
+    ("_incoming2", "agent (wave 2)", "confirm2", "mutant_results2.txt", "{name}-w2-{n}"),
+]
+for sub, author, confdir, detfile, fmt in SOURCES:
+    conf = load_conf(confdir)
+    det = load_det(detfile)
+    own = author == "own"
+    for d in sorted(glob.glob(os.path.join(SEEDED, sub, "*"))):
         name = os.path.basename(d)
         for diff in sorted(glob.glob(os.path.join(d, "change_?.diff"))):
             n = re.search(r"change_(\d)\.diff", diff).group(1)
@@ -41,9 +58,10 @@ for src, own in ((os.path.join(SEEDED, "_incoming"), False), (os.path.join(SEEDE
             ok = "existing_suites_failed=0" in c and "demo_with_change=[test result: FAILED" in c and "demo_without_change=[test result: ok" in c
             dd = det.get((name, n), {})
             prop = dd.get("check") or (name if re.fullmatch(r"C\d\d", name) else name[:3])
-            out = os.path.join(SEEDED, f"{name}-{n}")
+            kept = fmt.format(name=name, n=n)
+            out = os.path.join(SEEDED, kept)
             if not ok:
-                print("NOT KEPT (unconfirmed):", key, c[:160])
+                print("NOT KEPT (unconfirmed):", sub, key, c[:160])
                 continue
             os.makedirs(out, exist_ok=True)
             shutil.copy(diff, os.path.join(out, "patch.diff"))
@@ -55,18 +73,18 @@ for src, own in ((os.path.join(SEEDED, "_incoming"), False), (os.path.join(SEEDE
             ported = os.path.exists(os.path.join(d, f"change_{n}.original.diff"))
             meta = {
                 "property": prop,
-                "origin": "framework author" if own else "independent sub-agent given only the property text and a scratch worktree",
+                "origin": "framework author" if own else "independent sub-agent given only the property text and a scratch worktree (" + author + ")",
                 "ported_to_current_tree": ported,
                 "what_it_needs_to_manifest": notes.strip()[:3000],
                 "confirmed_in_scratch_worktree": {
-                    "command": f"lib/confirm_seeded.sh {d} {n} .build/confirm",
+                    "command": f"lib/confirm_seeded.sh seeded/{sub}/{name} {n} .build/{confdir}",
                     "existing_suite_passes_with_change": True,
                     "demonstration_fails_with_change": True,
                     "demonstration_passes_without_change": True,
                     "raw": c,
                 },
                 "detection": {
-                    "command": f"lib/mutant.sh seeded/{name}-{n}/patch.diff {prop}",
+                    "command": f"lib/mutant.sh /verif/seeded/{kept}/patch.diff {prop}",
                     "result": dd.get("result", "not run"),
                     "first_signatures": dd.get("signatures", [])[:3],
                 },
@@ -74,7 +92,7 @@ for src, own in ((os.path.join(SEEDED, "_incoming"), False), (os.path.join(SEEDE
             with open(os.path.join(out, "meta.json"), "w") as f:
                 json.dump(meta, f, indent=1)
             caught = dd.get("result", "").startswith("exit=1")
-            rows.append((f"{name}-{n}", prop, "agent" if not own else "own", "caught" if caught else ("MISSED" if dd else "not run"), (dd.get("signatures") or [""])[0][:110]))
+            rows.append((kept, prop, author, "caught" if caught else ("MISSED" if dd else "not run"), (dd.get("signatures") or [""])[0][:110]))
 reg = os.path.join(ROOT, ".build", "regress_fixes.txt")
 regrows = []
 if os.path.exists(reg):
